@@ -69,9 +69,10 @@ Shared(ob, a, b) == Reach(ob, a) \cap Reach(ob, b)
 \* C18 "shares no mutable state": nothing reachable from both, and no object belongs to both subtrees
 NoSharing(ob, a, b) == Shared(ob, a, b) = {} /\ OSub(ob, a) \cap OSub(ob, b) = {}
 \* the copy's cells are reachable from no object outside the copy, and no two objects of the copy share one
-CopyCellsPrivate(ob, c) ==
+\* (argument nodes A - containers the caller passed to copy() - are judged apart, see ArgumentsNotAliased)
+CopyCellsPrivate(ob, c, A) ==
     LET S == OSub(ob, c) IN
-    /\ CellsOf(ob, S) \cap CellsOf(ob, OObjs(ob) \ S) = {}
+    /\ CellsOf(ob, S) \cap CellsOf(ob, (OObjs(ob) \ S) \ A) = {}
     /\ \A x, y \in S : x # y => OwnCells(ob, x) \cap OwnCells(ob, y) = {}
 
 \* C18 "has no parent"
@@ -118,13 +119,20 @@ ObjObs(ob, x) == [kind |-> ob.kind[x], parent |-> ob.parent[x], pub |-> ob.pub[x
 \* C18 "leaves the original tree untouched": copy() is a stuttering step on everything that existed before
 Unchanged(pre, post, S) == \A x \in S : x \in OObjs(post) /\ ObjObs(post, x) = ObjObs(pre, x)
 OriginalUntouched(pre, post) == Unchanged(pre, post, OObjs(pre))
+\* Caller-owned ARGUMENT nodes: the containers (style dictionaries, arrays, lists) handed to copy() as keyword values are
+\* cells of the caller's heap.  "keyword arguments override attributes of the copy only": copy() leaves them as they
+\* were (so that a later copy made with the same containers does not inherit an override given to an earlier one) ...
+ArgumentsUntouched(pre, post, A) == Unchanged(pre, post, A \cap OObjs(pre))
+\* ... and the copy keeps no reference into them
+ArgumentsNotAliased(ob, c, A) == CellsOf(ob, OSub(ob, c)) \cap CellsOf(ob, A) = {}
+\* two attribute records agree outside the attributes a keyword is entitled to change
+AttrsEqualExcept(a, b, freeAttrs) == DOMAIN a = DOMAIN b /\ \A k \in DOMAIN a : k \notin freeAttrs => a[k] = b[k]
 
 \* C18 "same ... values (apart from the automatically iterated label)"; `free` = the (object, attribute) pairs
 \* an override is entitled to change
 EqualProjection(pre, post, o, ren, free) ==
     \A x \in OSub(pre, o) :
-       /\ DOMAIN post.pub[ren[x]] = DOMAIN pre.pub[x]
-       /\ \A a \in DOMAIN pre.pub[x] : <<x, a>> \notin free => post.pub[ren[x]][a] = pre.pub[x][a]
+       /\ AttrsEqualExcept(pre.pub[x], post.pub[ren[x]], {a \in DOMAIN pre.pub[x] : <<x, a>> \in free})
        /\ (x # o => post.lab[ren[x]] = pre.lab[x])
 \* C18 "keyword arguments override attributes of the copy only": the copy shows the value given
 OverridesApplied(post, c, ovr) == \A a \in DOMAIN ovr : a \in DOMAIN post.pub[c] /\ post.pub[c][a] = ovr[a]
@@ -279,19 +287,45 @@ FreeByOverride(ob, o, ovr) ==
            ELSE {<<o, t>> : t \in Coupled(a)} : a \in DOMAIN ovr}
 
 (***************************************************************************)
+(* copy(...) called with keyword values that live in containers of the     *)
+(* caller (node a): for the slots in `slots` the value is read from the    *)
+(* cell a refers to; a style template may come with an extra underscore    *)
+(* keyword (extra >= 0) that is merged over it.  Design: the copy gets the *)
+(* merged VALUE in cells of its own; the caller's cells are neither        *)
+(* written nor referenced.  Counter-designs: aliasSlots (the copy refers   *)
+(* to the caller's cell), mergeInPlace (the extra keyword is merged into   *)
+(* the caller's template, as dict(style) + in-place magic_to_dict does).   *)
+(***************************************************************************)
+OvrFromArgs(st, a, slots, extra, lab) ==
+    [s \in slots \cup (IF lab >= 0 THEN {"label"} ELSE {}) |->
+        IF s = "label" THEN lab
+        ELSE IF s = StySlot /\ extra >= 0 THEN extra ELSE st.val[st.refs[a][s]]]
+CopyWithArgsF(st, o, a, slots, extra, lab, ren, newc, shallow, keepPar, aliasSlots, mergeInPlace) ==
+    LET ovr == OvrFromArgs(st, a, slots, extra, lab)
+        c == ren[o]
+        st1 == CopyF(st, o, ovr, ren, newc, shallow, keepPar)
+        al == slots \cap aliasSlots
+        st2 == [st1 EXCEPT !.refs[c] = [t \in DOMAIN @ |-> IF t \in al THEN st.refs[a][t] ELSE @[t]]]
+        st3 == IF mergeInPlace /\ StySlot \in slots /\ extra >= 0
+               THEN [st2 EXCEPT !.val[st.refs[a][StySlot]] = extra] ELSE st2
+    IN st3
+
+(***************************************************************************)
 (* All C18 clauses about one copy step, on observations; returns the name  *)
 (* of the first failing clause or "ok".                                    *)
 (***************************************************************************)
-CopyClause(pre, post, o, ren, ovr, free) ==
+CopyClause(pre, post, o, ren, ovr, free, A) ==
     LET c == ren[o]
         fc == CopyForestClause(pre, post, o, ren)
     IN IF fc # "ok" THEN fc
        ELSE IF ~CopyParentless(post, c) THEN "CopyParentless"
        ELSE IF Shared(post, o, c) # {} THEN "NoSharing"
-       ELSE IF ~CopyCellsPrivate(post, c) THEN "CopyCellsPrivate"
-       ELSE IF ~OriginalUntouched(pre, post) THEN "OriginalUntouched"
+       ELSE IF ~CopyCellsPrivate(post, c, A) THEN "CopyCellsPrivate"
+       ELSE IF ~Unchanged(pre, post, OObjs(pre) \ A) THEN "OriginalUntouched"
+       ELSE IF ~ArgumentsUntouched(pre, post, A) THEN "ArgumentsUntouched"
        ELSE IF ~EqualProjection(pre, post, o, ren, free) THEN "EqualProjection"
        ELSE IF ~OverridesApplied(post, c, [a \in DOMAIN ovr \ {"label"} |-> ovr[a]]) THEN "OverridesOnlyCopy"
+       ELSE IF ~ArgumentsNotAliased(post, c, A) THEN "ArgumentsNotAliased"
        ELSE "ok"
 
 (***************************************************************************)
